@@ -12,7 +12,7 @@ PROPS_FILE = "C07/Props.v"
 SHARD = 60
 PER_CASE_TIMEOUT = 60
 RULE = ("random evaluate() runs: series of small positive integers (n <= 26, index RangeIndex(off, "
-        "off+n), off in {0,3,7}), sliding / expanding / single-window splitters (fh sorted subset of "
+        "off+n*stride, stride), off in {0,3,7}, stride 1 (70%) / 2 / 3: integer index with gaps), sliding / expanding / single-window splitters (fh sorted subset of "
         "1..5, window, step, optional initial window, start_with_window=True; a few with "
         "start_with_window=False and infeasible windows for the rejection path), strategy refit / "
         "update, with / without a one-column exogenous frame, return_data on/off, metrics sMAPE "
@@ -195,7 +195,9 @@ def make_data(case):
     import numpy as np
     import pandas as pd
     n, off = len(case["y"]), case["off"]
-    idx = pd.RangeIndex(off, off + n)
+    # time labels off, off+stride, ...: an integer index may have gaps (stride > 1)
+    stride = case.get("stride", 1)
+    idx = pd.RangeIndex(off, off + n * stride, stride)
     y = pd.Series(np.asarray(case["y"], dtype=float), index=idx)
     X = None
     if case.get("X") is not None:
@@ -375,7 +377,13 @@ class RefForecaster:
 
 def ref_eval(case):
     """None if rejected, else (rows, trace): rows of dicts with exact Fractions."""
-    sp, off = case["splitter"], case["off"]
+    sp = case["splitter"]
+    stride, off0 = case.get("stride", 1), case["off"]
+
+    class _T:                      # position -> time label, written `p + off` below
+        def __radd__(self, p):
+            return p * stride + off0
+    off = _T()
     ys = [Fraction(v) for v in case["y"]]
     xs = None if case.get("X") is None else [Fraction(v) for v in case["X"]]
     n = len(ys)
@@ -583,6 +591,9 @@ def gen_cases(rng, tier):
         u = rng.random()
         c["fit_params"] = None if u < 0.4 else {} if u < 0.55 else (
             {"boost": rng.choice([-4, -2, -1, 1, 2, 3, 6])} if c["fc"]["type"] == "double" else {})
+        # an integer index with gaps (time labels off, off+stride, ...): test time points are not
+        # cutoff + steps; 30% of the runs
+        c["stride"] = rng.choice([1, 1, 1, 1, 1, 1, 1, 2, 2, 3])
         cases.append(c)
     if tier == "thorough":
         cases += exhaustive_cases()
@@ -648,6 +659,10 @@ def shrink(case):
     if c["off"]:
         d = dict(c)
         d["off"] = 0
+        yield d
+    if c.get("stride", 1) > 2:
+        d = dict(c)
+        d["stride"] = 2
         yield d
     if c["return_data"]:
         d = dict(c)
@@ -759,6 +774,8 @@ def coq_case(case, out):
         o = "(Some (%s, %s))" % (clist(rows),
                                  "None" if tr is None else "(Some %s)" % clist([c_call(c)
                                                                                 for c in tr]))
+    if case.get("stride", 1) != 1:
+        return "CEvalS %s %s %s %s" % (cz(case["stride"]), c_fp(case), c_args(case), o)
     if "fit_params" in case:
         return "CEvalP %s %s %s" % (c_fp(case), c_args(case), o)
     return "CEval %s %s" % (c_args(case), o)
@@ -770,6 +787,8 @@ def c_fp(case):
 
 
 def coq_model_term(case):
+    if case.get("stride", 1) != 1:
+        return "model_eval_s %s %s %s" % (cz(case["stride"]), c_fp(case), c_args(case))
     if "fit_params" in case:
         return "model_eval_fp %s %s" % (c_fp(case), c_args(case))
     return "model_eval %s" % c_args(case)
@@ -790,6 +809,7 @@ def distribution(cases, results):
                          else "naive-" + c["fc"]["strategy"])] += 1
             d["X=%s" % (c.get("X") is not None)] += 1
             d["return_data=%s" % c["return_data"]] += 1
+            d["index-stride=%s" % c.get("stride", 1)] += 1
             fp = c.get("fit_params")
             d["fit_params=%s" % ("None" if fp is None else "{}" if not fp else "keyword")] += 1
     return dict(d)
